@@ -148,7 +148,7 @@ theorem shutdown_core (s : St) (hc : Core s) : Core (shutdown s) := by
         · exact hval
       · rfl
   · have hv := hc.tgtErr
-    rw [shutdown_targetErr, shutdown_verr, shutdown_tgt]
+    rw [shutdown_targetErr, shutdown_verr, shutdown_tgtE]
     cases hres : s.resolved
     · have := hc.curNone (cur_none_of_unresolved s hc hres)
       simp [this.2.2] at hv ⊢; simp [hv]
